@@ -646,10 +646,13 @@ class SMPose(SMUserList):
             return self._string_color(color=True)
 
     def _string_matrix(self):
-        if self._ansiformatter is None:
-            self._ansiformatter = ANSIMatrix(style='thick')
+        # never store the formatter on the receiver: str(X) must not modify X.  A formatter set by the user on the
+        # class (SMPose._ansiformatter = ANSIMatrix(...)) is honoured, otherwise one is created for this call
+        formatter = self._ansiformatter
+        if formatter is None:
+            formatter = ANSIMatrix(style='thick')
 
-        return self._ansiformatter.str(self.A)
+        return formatter.str(self.A)
 
     def _string_color(self, color=False):
         """
